@@ -12,7 +12,7 @@ Clauses listed in known_findings.d/X-mutable_layout.json (status known) are soft
 as KNOWN-FINDING, and the rest of the trace is still judged."""
 import json
 
-KNOWN_CLAUSES = ("W_finish_without_tree_not_LayoutInvalid", "T_sdmf_empty_checkstring_passes_any_share", "R_backwards_table_not_BadShareError")
+KNOWN_CLAUSES = ("W_finish_without_tree_KeyError", "T_sdmf_empty_checkstring", "R_backwards_table_exception")
 GEN_INVS = ["L_Increasing", "L_ReaderInverts", "L_SdmfTight", "L_MdmfRegions", "L_BlocksTile", "L_BlocksHoldData", "L_HeaderTable"]
 MC_INVS = ["W_FieldsIntact", "W_FinishComplete", "W_OffsetsStable", "W_CanFinish"]
 
@@ -107,12 +107,8 @@ def run(ctx):
 
     cfg = "SPECIFICATION TraceSpec\nINVARIANT TraceOK\nCHECK_DEADLOCK FALSE\n"
     ctx.trace("mutable/TraceMutableLayout", traces, cfg=cfg, key_of=key_of, what_of=what_of, batch=400, workers=4, timeout=3000)
-    seen = {}
     for k in list(ctx.note_counts):
         if k.startswith("K:"):
-            _, clause, ev, tid, l = k.split(":")
-            seen.setdefault((clause, ev), set()).add((tid, l))
-            del ctx.note_counts[k]
-    for (clause, ev), occ in sorted(seen.items()):
-        for _ in occ:
-            ctx.report(key="trace:%s:%s" % (clause, ev), what="layout.py: clause %s at a %s event" % (clause, ev))
+            _, clause, ev = k.split(":")
+            for _ in range(ctx.note_counts.pop(k)):
+                ctx.report(key="trace:%s:%s" % (clause, ev), what="layout.py: clause %s at a %s event" % (clause, ev))
